@@ -305,8 +305,10 @@ func extractColor(str string, state *ansiState, proc func(string, *ansiState) bo
 		proc(rest, state)
 	}
 	if len(offsets) > 0 {
-		if len(rest) > 0 && state != nil {
-			// Update last offset
+		if state != nil {
+			// Update last offset. Do this even if nothing follows the last
+			// sequence: a sequence that leaves the state as it is (e.g. \x1b[K)
+			// does not close the span, so its end may still be stale
 			runeCount += utf8.RuneCountInString(rest)
 			(&offsets[len(offsets)-1]).offset[1] = int32(runeCount)
 		}
